@@ -150,6 +150,26 @@ def interfere(pvl, dialect):
             pass
 
 
+def case_twin(x, how):
+    """A structural copy of *x* with every string value re-cased."""
+    if isinstance(x, dict) and hasattr(x, "append"):
+        out = type(x)()
+        for k, v in list(x):
+            out.append(k, case_twin(v, how))
+        return out
+    if type(x) is dict:
+        return {k: case_twin(v, how) for k, v in x.items()}
+    if isinstance(x, list):
+        return [case_twin(v, how) for v in x]
+    if isinstance(x, (set, frozenset)):
+        return type(x)(case_twin(v, how) for v in x)
+    if type(x).__name__ == "Quantity":
+        return type(x)(case_twin(x.value, how), x.units)
+    if type(x) is str:
+        return how(x)
+    return x
+
+
 def one(rec, pvl, dialect, cfg, module, wit, via):
     s0 = snapshot(module)
     texts = []
@@ -177,6 +197,14 @@ def one(rec, pvl, dialect, cfg, module, wit, via):
                     pass
                 try:
                     pvl.dump(other, io.StringIO(), encoder=enc, **kw)
+                except Exception:
+                    pass
+            # ... and a twin of the module under watch in which every string is
+            # spelled in another letter case (what the encoder learnt about one
+            # spelling says nothing about the other)
+            for how in (str.swapcase, str.lower, str.upper):
+                try:
+                    enc.encode(case_twin(module, how))
                 except Exception:
                     pass
             rec.count("same_instance_used_for_another_module_with_other_settings")
